@@ -902,8 +902,10 @@ outer:
 				if rn == '{' {
 					buf.Reset()
 					for {
-						rn, _, _ := r.ReadRune()
-						if rn == '}' {
+						rn, _, err := r.ReadRune()
+						// the grammar reports an unterminated Unicode class as an
+						// error but still builds the node: stop at the end of the text
+						if err != nil || rn == '}' {
 							break
 						}
 						buf.WriteRune(rn)
